@@ -12,7 +12,8 @@ SYS_FLAGS = [1, 2, 3, 4, 5]
 
 class TraceGen:
     def __init__(self, rng, run: StoreRun, sessions, *, boxes=(1,), idle=True,
-                 readonly_sessions=(), weights=None, flipflop: float = 0.0) -> None:
+                 readonly_sessions=(), weights=None, flipflop: float = 0.0,
+                 group: float = 0.0) -> None:
         self.rng = rng
         self.run = run
         self.sessions = list(sessions)
@@ -21,6 +22,8 @@ class TraceGen:
         self.readonly_sessions = set(readonly_sessions)
         self.next_content = 100
         self.flipflop = flipflop   # share of STOREs that toggle \\Flagged/\\Seen on the first messages
+        self.group = group         # probability of starting a "one log record, several uids" episode
+        self.queue: list[tuple] = []   # labels of a running episode, executed back to back
         self.w = {'append': 9, 'store': 16, 'expunge': 10, 'uidexpunge': 5, 'copy': 5, 'move': 7,
                   'fetch': 14, 'search': 8, 'noop': 10, 'check': 3, 'touch': 2, 'close': 1,
                   'idle': 3, 'select': 2, 'deliver': 2}
@@ -138,10 +141,65 @@ class TraceGen:
             return 3
         return 9
 
+    # ---- episodes: one modification-log record that names several uids, then a session that
+    #      has not synchronized yet touches only some of them again
+    def _episode(self):
+        rng = self.rng
+        run = self.run
+        ready = [s for s in self.sessions if s not in run.idle and run.selected(s) is not None]
+        if rng.random() < 0.75:
+            # A marks 2-3 messages \\Deleted and expunges them with ONE EXPUNGE; B, whose view is
+            # stale, then addresses a strict subset of them by UID
+            cands = [s for s in ready if not run.selected(s).readonly
+                     and len(run.selected(s)._messages._sorted) >= 2]
+            if not cands:
+                return []
+            a = rng.choice(cands)
+            sel_a = run.selected(a)
+            box = self._boxnum(sel_a)
+            others = [s for s in ready if s != a and self._boxnum(run.selected(s)) == box]
+            if not others:
+                return []
+            rw = [s for s in others if not run.selected(s).readonly]
+            b = rng.choice(rw or others)
+            view = list(sel_a._messages._sorted)
+            k = rng.randint(2, min(3, len(view)))
+            positions = sorted(rng.sample(range(1, len(view) + 1), k))
+            uids = [view[p - 1] for p in positions]
+            subset = sorted(rng.sample(uids, rng.randint(1, k - 1)))
+            labels = [('cmd', a, ('store', positions, False, 'add', [2], rng.random() < 0.3)),
+                      ('cmd', a, ('expunge', None))]
+            r = rng.random()
+            if r < 0.6:
+                labels.append(('cmd', b, ('expunge', subset)))                       # UID EXPUNGE
+            elif r < 0.8:
+                labels.append(('cmd', b, ('store', subset, True, 'add', [5], rng.random() < 0.5)))
+            else:
+                labels.append(('cmd', b, ('fetch', subset, True, False, True)))      # sets \\Seen
+            return labels
+        # two deliveries, one SELECT claims both \\Recent flags in one record, then one of the two
+        # messages is changed again
+        cands = [s for s in ready if not run.selected(s).readonly]
+        if not cands or len(ready) < 2:
+            return []
+        x = rng.choice(cands)
+        box = self._boxnum(run.selected(x))
+        self.next_content += 2
+        return [('deliver', box, [], True, self.next_content - 1),
+                ('deliver', box, [], True, self.next_content),
+                ('cmd', x, ('select', box, False)),
+                ('cmd', x, ('store', [rng.choice(['*', '*', 1])], False, 'add', [4], False))]
+
     # ---- main
     def next_label(self):
         rng = self.rng
         run = self.run
+        if self.queue:
+            return self.queue.pop(0)
+        if self.group and rng.random() < self.group:
+            self.queue = self._episode()
+            if self.queue:
+                return self.queue.pop(0)
         # an idling session can only be ended
         s = rng.choice(self.sessions)
         if s in run.idle:
